@@ -215,4 +215,72 @@ theorem engCmpVV_same_iter' (st : St) (op : String) (tc : List String) (a b : De
   · intro b' k' hb'
     have hne : b' ≠ (freshOf st a.dt a.shape a.ap.o.col).win.buf := by simp only [freshOf]; exact Nat.ne_of_lt hb'
     rw [hf2 _ _ (Or.inl hne), hf1 _ _ (Or.inl hne), allocZero_cell_lt _ _ _ _ hb']
+
+/-- unfolding of a unary operation with a reuse tensor on the iterator path, for whatever operand `aK` `prepDataUnary`
+    hands to the kernels -/
+theorem engUnary_iter_reuse_gen (st s1 : St) (g : UnF) (tc kt : List String) (strict : Bool) (a aK r : Dense)
+    (hta : tc.contains a.dt = true) (hk : kt.contains a.dt = true)
+    (hr : ReuseFits r a.shape a.dt a.ap.o.col)
+    (hp : prepAliasT st a (some r) = .ok (s1, aK))
+    (hu : (aK.requiresIterator || (r.requiresIterator || !sameOrd r aK)) = true)
+    (hmk : aK.mask = none) (hmr : r.mask = none) :
+    engUnary st g tc kt strict a { reuse := some r } = (do
+      let s ← Dense.copyIterOffsets s1 r.win aK.win r.offsets aK.offsets
+      let s ← kUnIter s r.win g (r.offsets.map (·, true))
+      pure ⟨s, some r, .reuse⟩) := by
+  unfold engUnary
+  simp only [hta, hk, hfo_reuse _ _ _ _ _ _ hr, hp, hu, itStream_nomask _ _ hmk, itStream_nomask _ _ hmr, map_true_fst,
+    bind, Except.bind, pure, Except.pure, Bool.not_true, Bool.false_eq_true, if_false, Bool.or_false, Bool.not_false, if_true]
+
+/-- **F123 repaired, for every shape**: a unary operation whose reuse tensor `r` shares memory with the operand `a`
+    through another access pattern (a shallow clone with a pending transpose, an overlapping window): the operand is
+    cloned first, and at the `k`-th position of the two iterators `r`'s cell receives `g` of the element `a`'s iterator
+    addressed at `k` *before the call* - by coordinate; buffers other than `r`'s are unchanged. -/
+theorem engUnary_reuse_alias' (st : St) (g : UnF) (tc kt : List String) (strict : Bool) (a r : Dense)
+    (hta : tc.contains a.dt = true) (hk : kt.contains a.dt = true)
+    (hr : ReuseFits r a.shape a.dt a.ap.o.col)
+    (hsh : sharesMemory a r = true) (hsa : sameAccess a r = false)
+    (hu : (a.requiresIterator || (r.requiresIterator || !sameOrd r a)) = true)
+    (hma : a.mask = none) (hmr : r.mask = none)
+    (hcr : r.win.len ≤ r.win.cap)
+    (hor : ∀ i ∈ r.offsets, 0 ≤ i ∧ i < (r.win.len : Int)) (hoa : ∀ j ∈ a.offsets, 0 ≤ j ∧ j < (a.win.len : Int))
+    (hnd : r.offsets.Nodup)
+    (hA : InBuf st a.win.buf a.win.off a.win.len) (hR : InBuf st r.win.buf r.win.off r.win.len) :
+    ∃ st', engUnary st g tc kt strict a { reuse := some r } = .ok ⟨st', some r, .reuse⟩ ∧ st'.mheap = st.mheap ∧
+      (∀ (k : Nat) m j, r.offsets[k]? = some m → a.offsets[k]? = some j →
+        cell st' r.win.buf (r.win.off + m.toNat) = some (g (cellD st a.win.buf (a.win.off + j.toNat)))) ∧
+      (∀ b' k', b' < st.heap.size → b' ≠ r.win.buf → cell st' b' k' = cell st b' k') := by
+  obtain ⟨s1, h1, hm1, hs1, hv1, hf1⟩ := clone_spec st a hma hA.lt hA.has
+  have hp : prepAliasT st a (some r) = .ok (s1, cloneOf st a) := by
+    simp [prepAliasT, operandFor, hsh, hsa, h1]
+  have hu' : ((cloneOf st a).requiresIterator || (r.requiresIterator || !sameOrd r (cloneOf st a))) = true := by
+    rw [cloneOf_requiresIterator st a hma]
+    have : sameOrd r (cloneOf st a) = sameOrd r a := rfl
+    rw [this]; exact hu
+  rw [engUnary_iter_reuse_gen st s1 g tc kt strict a (cloneOf st a) r hta hk hr hp hu' rfl hmr]
+  have hnra : r.win.buf ≠ (cloneOf st a).win.buf := by simp only [cloneOf]; exact Nat.ne_of_lt hR.lt
+  have hHc : Has s1 st.heap.size 0 a.win.len := by
+    intro i hi
+    rw [Nat.zero_add, hv1 i hi]; rfl
+  have hHr : Has s1 r.win.buf r.win.off r.win.len := by
+    intro i hi
+    rw [hf1 _ _ hR.lt]; exact hR.has i hi
+  obtain ⟨s2, h2, hm2, _, hv2, hf2⟩ := copyIterOffsets_spec s1 r.win (cloneOf st a).win r.offsets a.offsets
+    r.win.len a.win.len hnra hcr (by simp only [cloneOf]; exact Nat.le_refl _) hor hoa hnd hHr
+    (by simpa only [cloneOf] using hHc)
+  simp only [cloneOf_offsets, h2, bind, Except.bind]
+  have hkeep : ∀ {b off n : Nat}, Has s1 b off n → Has s2 b off n :=
+    copyIterOffsets_has s1 s2 r.win r.offsets a.offsets
+      (fun k i j hi hj => by rw [hv2 k i j hi hj]; rfl) hf2
+  obtain ⟨s3, h3, hm3, _, hv3, hf3⟩ := kUnIter_spec s2 r.win g (r.offsets.map (·, true))
+    (inRange_map_true hor) (by rw [map_true_fst]; exact hnd) (hkeep hHr)
+  refine ⟨s3, by rw [h3]; rfl, (hm3.trans hm2).trans hm1, ?_, ?_⟩
+  · intro k m j hm hj
+    have hmem : (m, true) ∈ r.offsets.map (·, true) := List.mem_map.mpr ⟨m, List.mem_of_getElem? hm, rfl⟩
+    rw [hv3 m hmem, cellD_of_some (hv2 k m j hm hj)]
+    simp only [cloneOf, Nat.zero_add]
+    have hj' := hoa j (List.mem_of_getElem? hj)
+    rw [cellD_of_some (hv1 j.toNat (by omega))]
+  · intro b' k' hb' hne
+    rw [hf3 _ _ (Or.inl hne), hf2 _ _ (Or.inl hne), hf1 _ _ hb']
 end TM
